@@ -124,8 +124,12 @@ pub fn gen(r: &mut Rng) -> String {
                 let id = if !live.is_empty() && r.below(3) != 0 {
                     let k = r.below(live.len() as u64) as usize;
                     live[k]
+                } else if !live.is_empty() && r.below(3) == 0 {
+                    // an unregistered id that agrees with a live one in its low bits
+                    let k = r.below(live.len() as u64) as usize;
+                    live[k] | (1u32 << (8 + r.below(24)))
                 } else {
-                    r.below(6) as u32
+                    *r.pick(&[0u32, 1, 2, 3, 4, 5, 6, 255, 256, 65535, 65536, u32::MAX])
                 };
                 live.retain(|x| *x != id);
                 ops.push(format!("rm/{}", id));
